@@ -528,4 +528,99 @@ Proof.
     destruct (IH _ Hne' H1) as (I1 & I2 & I3). repeat split; auto.
     intros _. destruct gs as [|g' gs']; [exact H2|]. apply I3. discriminate.
 Qed.
+
+(* ---- an index handed out once is never handed out again, over the whole history ---- *)
+Fixpoint trace (rkf : list Q -> list nat) (c : cfg) (pop : list (agent P))
+         (gs : list (list (list nat) * list (list Q))) : list (list (agent P)) :=
+  match gs with
+  | [] => [pop]
+  | g :: t => pop :: trace rkf c (gen_step rkf c pop g) t
+  end.
+
+Definition fresh_of (c : cfg) (pop : list (agent P)) : list Z := skipn (off c) (map a_index pop).
+
+Lemma In_skipn_In {A} (l : list A) n x : In x (skipn n l) -> In x l.
+Proof. intros H. rewrite <- (firstn_skipn n l). apply in_or_app. right. exact H. Qed.
+
+Lemma max_id_ge_idx (pop : list (agent P)) x : In x (map a_index pop) -> (x <= max_id pop)%Z.
+Proof. intros H. apply in_map_iff in H. destruct H as (a & <- & Ha). apply max_id_ge. exact Ha. Qed.
+
+Lemma gen_step_fresh rkf c (pop : list (agent P)) g : pop <> [] ->
+  let r := gen_step rkf c pop g in
+  (forall x, In x (fresh_of c r) -> (max_id pop < x)%Z) /\ (0 < nsel c -> (max_id pop < max_id r)%Z).
+Proof.
+  intros Hne. cbn zeta. unfold gen_step, fresh_of.
+  destruct (select_with (rkf (means c pop)) c pop (fst g)) as [[e np]|] eqn:E;
+    [|apply select_none in E; congruence].
+  rewrite append_fitness_indices.
+  pose proof (indices_fresh_lemma _ _ _ _ _ _ E) as (Hf & _). cbn zeta in Hf.
+  split.
+  - intros x Hx. rewrite Hf in Hx. apply in_map_iff in Hx. destruct Hx as (i & <- & _). lia.
+  - intros Hn.
+    assert (Hin : In (max_id pop + 1 + Z.of_nat 0)%Z (map a_index np)).
+    { apply (In_skipn_In _ (off c)). rewrite Hf. apply in_map_iff. exists 0. split; [reflexivity|].
+      apply in_seq. lia. }
+    rewrite <- (append_fitness_indices np (snd g)) in Hin.
+    apply max_id_ge_idx in Hin. lia.
+Qed.
+
+Lemma trace_bound rkf c : 0 < psize c -> 0 < nsel c ->
+  forall gs (pop : list (agent P)), pop <> [] ->
+  forall k p, nth_error (trace rkf c pop gs) k = Some p ->
+    p <> [] /\ (max_id pop <= max_id p)%Z /\ (1 <= k -> forall x, In x (fresh_of c p) -> (max_id pop < x)%Z).
+Proof.
+  intros Hp Hn. induction gs as [|g t IH]; intros pop Hne k p Hk.
+  - destruct k as [|k]; cbn in Hk; [|destruct k; discriminate]. injection Hk as <-.
+    repeat split; auto; try lia.
+  - cbn [trace] in Hk. destruct k as [|k]; cbn [nth_error] in Hk.
+    + injection Hk as <-. repeat split; auto; try lia.
+    + destruct (gen_step_inv rkf c pop g Hp Hne) as (_ & Hlen & _).
+      assert (Hne' : gen_step rkf c pop g <> []) by (intros E; rewrite E in Hlen; cbn in Hlen; lia).
+      destruct (gen_step_fresh rkf c pop g Hne) as (Hfr & Hmono). specialize (Hmono Hn).
+      destruct (IH _ Hne' _ _ Hk) as (Hpne & Hle & Hlater).
+      split; [exact Hpne|]. split; [lia|]. intros _ x Hx.
+      destruct k as [|k].
+      * cbn in Hk. destruct t; cbn in Hk; injection Hk as <-; apply Hfr; exact Hx.
+      * specialize (Hlater ltac:(lia) x Hx). lia.
+Qed.
+
+Lemma trace_lengths rkf c : 0 < psize c ->
+  forall gs (pop : list (agent P)), pop <> [] ->
+  forall k p, nth_error (trace rkf c pop gs) (S k) = Some p -> length p = psize c.
+Proof.
+  intros Hp. induction gs as [|g t IH]; intros pop Hne k p Hk; cbn [trace nth_error] in Hk.
+  - destruct k; discriminate.
+  - destruct (gen_step_inv rkf c pop g Hp Hne) as (_ & Hlen & _).
+    destruct k as [|k].
+    + destruct t; cbn in Hk; injection Hk as <-; exact Hlen.
+    + apply (IH (gen_step rkf c pop g)) with (k := k); [|exact Hk].
+      intros E; rewrite E in Hlen; cbn in Hlen; lia.
+Qed.
+
+Theorem fresh_never_reused_lemma rkf c gs : 0 < psize c ->
+  forall (pop : list (agent P)), pop <> [] ->
+  forall g1 g2 p1 p2, g1 < g2 ->
+    nth_error (trace rkf c pop gs) g1 = Some p1 -> nth_error (trace rkf c pop gs) g2 = Some p2 ->
+    forall x, In x (fresh_of c p2) -> ~ In x (map a_index p1).
+Proof.
+  intros Hp. destruct (Nat.eq_dec (nsel c) 0) as [Hz|Hnz].
+  - (* no tournament at all: the population is the elite alone, nothing fresh is ever created *)
+    intros pop Hne g1 g2 p1 p2 Hlt H1 H2 x Hx. exfalso.
+    destruct g2 as [|g2]; [lia|].
+    pose proof (trace_lengths rkf c Hp gs pop Hne g2 p2 H2) as Hlen.
+    unfold fresh_of in Hx. assert (Hoff : off c = psize c).
+    { unfold nsel in Hz. unfold off. destruct (elitism c); lia. }
+    rewrite Hoff, <- Hlen, <- (map_length a_index), skipn_all in Hx. destruct Hx.
+  - assert (Hn : 0 < nsel c) by lia.
+    induction gs as [|g t IH]; intros pop Hne g1 g2 p1 p2 Hlt H1 H2 x Hx Hin.
+    + cbn in H2. destruct g2 as [|[|?]]; try discriminate. lia.
+    + destruct g1 as [|g1].
+      * cbn [trace nth_error] in H1. injection H1 as <-.
+        destruct (trace_bound rkf c Hp Hn (g :: t) pop Hne g2 p2 H2) as (_ & _ & Hfr).
+        specialize (Hfr ltac:(lia) x Hx). apply max_id_ge_idx in Hin. lia.
+      * destruct g2 as [|g2]; [lia|]. cbn [trace nth_error] in H1, H2.
+        destruct (gen_step_inv rkf c pop g Hp Hne) as (_ & Hlen & _).
+        assert (Hne' : gen_step rkf c pop g <> []) by (intros E; rewrite E in Hlen; cbn in Hlen; lia).
+        apply (IH _ Hne' g1 g2 p1 p2 ltac:(lia) H1 H2 x Hx Hin).
+Qed.
 End Sel.
